@@ -17,7 +17,7 @@ TRUSTED_BASE = [
     "Lean 4.33.0 kernel (re-checked by leanchecker in the thorough tier)",
     "axioms: propext, Classical.choice, Quot.sound only (audited per theorem on every run); no native_decide, bv_decide, sorry or user axioms",
     "Mathlib v4.33.0 as installed",
-    "translator /verif/py/translate.py (Python ast -> Gen/*.lean), cross-checked by running Gen against the real functions",
+    "translator /verif/py/translate.py and its plug-ins py/translate_ext_*.py (Python ast -> Gen/*.lean), cross-checked by running the generated functions against the real ones on every run",
     "correspondence harness /verif/py and the Lean JSON drivers (decoding, canonicalisation, tolerances)",
     "CPython int()/float()/str.format/round on the grammar modelled in Py/Num.lean; NumPy and SQLite as contracts (DESIGN.md section 4)",
     "IEEE-754 evaluation of the numeric kernels is compared on samples, not proved (DESIGN.md section 3)",
